@@ -14,8 +14,13 @@
 //   - recording fakes: FSChain (containers, epoch, container nodes, maintenance
 //     flag), netmapper, inner-ring list, chain time, eACL source, eACL header
 //     source, object.Storage (sessions, SearchObjects, VerifyAndStoreObjectLocally),
-//     ClientConstructor (every dial is logged and refused), PUT local object
-//     storage / payments / transport, DELETE handler, gRPC server streams.
+//     ClientConstructor (every dial is logged), PUT local object storage /
+//     payments / transport, DELETE handler, gRPC server streams.
+//   - the other container node is an in-process gRPC server over bufconn
+//     (remote.go) serving GET / HEAD / RANGE / SEARCH for two objects per
+//     container that are NOT in the local engine, so that the server's proxy
+//     path (re-signed request to a container node, response relayed to the
+//     client, header-time eACL re-check on the relayed header) runs for real.
 //   - every engine operation is observed through engine.MetricRegister hooks.
 //
 // Everything observable goes into one ordered Log of events with a Kind:
@@ -36,7 +41,9 @@
 // the handlers); Env.ServerLate gives the ACL checker an empty engine, which
 // makes request-time eACL evaluation of object-header filters inconclusive
 // (ErrNotMatched) exactly as it is for objects that are not available locally
-// at request time, so that the header-time re-check path is exercised.
+// at request time, so that the header-time re-check of the local read path is
+// exercised; the re-check of the proxy path is exercised on Env.Server with the
+// objects that live on the fake remote node only.
 //
 // Methods of the gRPC service interface and of *object.Server are enumerated by
 // reflection (Methods); a method the table does not know makes the checks
